@@ -25,7 +25,7 @@ Ev(b) == b = TRUE
 Reading(t) == pc[t] \in {"start", "g0", "fb", "lv1", "permld", "lv2", "d_lv", "d_fc", "fb1", "g_val", "g_fc", "r_fc0", "lock", "done",
                           "s_enter", "s_next", "s_perm", "s_val", "s_chk", "l_enter", "l_root1", "l_root2", "l_fb", "l_senter", "l_next", "l_perm", "l_val", "l_chk",
                           "l_rec", "l_fin", "s_lfail", "s_rec", "s_fin", "s_ret",
-                          "io_lv1", "io_p", "io_lv2", "io_stack", "in_top", "in_ent", "ck1", "ck2", "ck3", "ck4", "in_child", "in_cfb", "in_push", "ir_fb", "ir_root", "ir_isb", "ir_up", "ir_find", "ir_arr", "i_ret"}
+                          "io_lv1", "io_p", "io_lv2", "io_stack", "in_top", "in_ent", "ck1", "ck2", "ck3", "ck4", "in_child", "in_cfb", "in_push", "ir_fb", "ir_root", "ir_res1", "ir_res2", "ir_res3", "ir_res4", "ir_isb", "ir_find", "ir_arr", "i_ret"}
 Owner(t) == ~Reading(t)
 Private(n) == n \in {1, 2} /\ nd[n] = EmptyB
 TInit == Init /\ l = 2 /\ TLCSet(1, 2)
@@ -42,12 +42,13 @@ TReset == /\ Consume /\ E.e = "reset"
           /\ seen' = [t \in Threads |-> [k \in Keys |-> {}]] /\ res' = [t \in Threads |-> <<>>]
 TInv == Consume /\ E.e = "inv" /\ Start(E.t)
 TRootLoad == /\ Consume /\ E.e = "root_load" /\ Ev(E.n = 0)
-             /\ IF pc[E.t] = "g0" THEN G0(E.t) ELSE Ev(pc[E.t] = "fb" /\ Op(E.t).op = "put") /\ Stutter
+             /\ IF pc[E.t] = "g0" THEN G0(E.t) ELSE IF pc[E.t] = "ir_res1" THEN IRRes1(E.t) ELSE Ev(pc[E.t] = "fb" /\ Op(E.t).op = "put") /\ Stutter
 TVerLoad == /\ Consume /\ E.e = "ver_load"
             /\ LET t == E.t IN
                IF Private(E.n) THEN Stutter
                ELSE /\ Ev(nd[E.n].ver = LVer(E))
                     /\ IF pc[t] = "ir_isb" THEN IRIsB(t) /\ Ev(Top(loc[t]).root = E.n)
+                       ELSE IF pc[t] = "ir_res2" THEN (IF Stable(LVer(E)) THEN IRRes2(t) /\ Ev(E.n = 0) ELSE Stutter)
                        ELSE IF pc[t] = "l_root1" THEN LRoot1(t) /\ Ev(loc[t].child = E.n)
                        ELSE IF pc[t] = "l_root2" THEN LRoot2(t) /\ Ev(loc[t].child = E.n)
                        ELSE IF Owner(t) \/ pc[t] = "lock" \/ ~Stable(LVer(E)) THEN Stutter
@@ -64,13 +65,13 @@ TPermLoad == /\ Consume /\ E.e = "perm_load"
                                                   ELSE (PermLd(E.t) /\ Ev(loc[E.t].b = E.n)) \/ (SPermS(E.t) /\ Ev(E.n = 0)) \/ (LPermS(E.t) /\ Ev(loc[E.t].child = E.n))
                                                        \/ ((IOP(E.t) \/ IOStack(E.t)) /\ Ev(E.n = 0)) \/ ((CK2(E.t) \/ CK4(E.t) \/ IRArr(E.t)) /\ Ev(loc[E.t].b = E.n))
                                                        \/ (INPush(E.t) /\ Ev(loc[E.t].child = E.n))
-                                                       \/ (pc[E.t] = "ir_up" /\ Ev(loc[E.t].st[Len(loc[E.t].st) - 1].bn = E.n) /\ Stutter))
+                                                       \/ (IRRes3(E.t) /\ Ev(E.n = 0)))
 TLvLoad == /\ Consume /\ E.e = "lv_load"
            /\ IF Private(E.n) \/ Owner(E.t) THEN Stutter
               ELSE IF pc[E.t] \in {"s_chk", "l_chk"} THEN Ev(nd[E.n].lv[E.slot] = E.w /\ loc[E.t].idx = E.slot) /\ Stutter      \* second load of the slot word (get_next_layer)
               ELSE IF pc[E.t] = "in_ent" THEN Ev(nd[E.n].lv[E.slot] = E.w /\ E.n = loc[E.t].b /\ loc[E.t].rk <= Len(loc[E.t].perm) /\ loc[E.t].perm[loc[E.t].rk] = E.slot) /\ INEnt(E.t)
               ELSE IF pc[E.t] = "in_child" THEN Ev(nd[E.n].lv[E.slot] = E.w /\ E.n = loc[E.t].b /\ loc[E.t].idx = E.slot) /\ INChild(E.t)
-              ELSE IF pc[E.t] = "ir_up" THEN Ev(nd[E.n].lv[E.slot] = E.w) /\ IRUp(E.t)
+              ELSE IF pc[E.t] = "ir_res4" THEN Ev(nd[E.n].lv[E.slot] = E.w /\ E.n = 0 /\ loc[E.t].idx = E.slot) /\ IRRes4(E.t)
               ELSE IF pc[E.t] = "s_val" THEN Ev(nd[E.n].lv[E.slot] = E.w /\ E.n = 0 /\ loc[E.t].snap[loc[E.t].si] = E.slot) /\ SVal(E.t)
               ELSE IF pc[E.t] = "l_val" THEN Ev(nd[E.n].lv[E.slot] = E.w /\ E.n = loc[E.t].child /\ loc[E.t].lsnap[loc[E.t].lsi] = E.slot) /\ LVal(E.t)
               ELSE /\ Ev(nd[E.n].lv[E.slot] = E.w /\ loc[E.t].b = E.n /\ loc[E.t].idx = E.slot)
@@ -114,7 +115,7 @@ TRet == /\ Consume /\ E.e = "ret" /\ Stutter
 TEnd == Consume /\ E.e = "end" /\ Stutter /\ Ev(AllDone)
 TSilent == /\ l <= Len(Log) /\ UNCHANGED l
            /\ \E t \in Threads : \/ (pc[t] = "chk" /\ Chk(t) /\ pc'[t] \in {"r_clear", "p_set"})
-                                 \/ INTop(t) \/ IRFb(t) \/ IRet(t) \/ (INEnt(t) /\ loc[t].rk > Len(loc[t].perm)) \/ (pc[t] = "ir_up" /\ IRUp(t) /\ pc'[t] = "in_top")
+                                 \/ INTop(t) \/ IRFb(t) \/ IRet(t) \/ (INEnt(t) /\ loc[t].rk > Len(loc[t].perm))
                                  \/ SEnter(t) \/ SNext(t) \/ LEnter(t) \/ LSEnter(t) \/ LNext(t) \/ LRec(t) \/ SLFail(t) \/ SRec(t) \/ SRet(t)
 TNext == TReset \/ TInv \/ TRootLoad \/ TVerLoad \/ TPermLoad \/ TLvLoad \/ TParentLoad \/ TLock \/ TFlag \/ TUnlock \/ TLvStore \/ TPermStore
          \/ TOther \/ TRet \/ TEnd \/ TSilent
